@@ -326,6 +326,9 @@ class Interp:
                 return x
             args = [wrap(a) for a in args]
             kwargs = {k: wrap(v) for k, v in kwargs.items()}
+            if f in _ITER_BUILTINS:
+                args = [list(a.attrs["__iter__"]) if isinstance(a, Obj) and "__iter__" in a.attrs else
+                        (list(a.attrs["__items__"]) if isinstance(a, Obj) and "__items__" in a.attrs else a) for a in args]
             try:
                 return f(*args, **kwargs)
             except (Raised, Unsupported):
@@ -742,6 +745,18 @@ class Interp:
         return v
 
     def _eval_class_attr(self, ci, ex):
+        # class attributes are evaluated once per interpreter (like a class body) so that mutable class-level
+        # objects keep their identity and their mutations - they are process-wide state
+        for aname, aex in ci.attrs.items():
+            if aex is ex:
+                if (ci.name, aname) in self.class_state:
+                    return self.class_state[(ci.name, aname)]
+                v = self._eval_class_attr_raw(ci, ex)
+                self.class_state[(ci.name, aname)] = v
+                return v
+        return self._eval_class_attr_raw(ci, ex)
+
+    def _eval_class_attr_raw(self, ci, ex):
         sub = Env()
         sub.vars["__relpath__"] = ci.relpath
         sub.vars["__cls__"] = ci.name
@@ -915,6 +930,8 @@ class Interp:
             if attr == "args":
                 return base.args
             raise Unsupported(f"exception attribute {attr}")
+        if base is None:
+            raise Raised(ExcVal("AttributeError", (f"'NoneType' object has no attribute '{attr}'",)), node)
         if isinstance(base, _NATIVE_TYPES) and not isinstance(base, (range, slice, type(None))):
             for t, names in _NATIVE_METHODS.items():
                 if (type(base) is t or (isinstance(base, _NativeModel) and isinstance(base, t)
@@ -1226,6 +1243,8 @@ def _walk_own(fn):
 def _b_sum(it, start=0):
     return sum(it, start)
 
+
+_ITER_BUILTINS = (list, tuple, set, frozenset, sorted, min, max, all, any, sum, dict)
 
 _BUILTINS = {
     "namedtuple": lambda name, fields, **k: NTClass(name, fields),
